@@ -22,7 +22,7 @@ RULE = ("One evaluation = one seeded execution of two real clients (real "
         "reconnects and replays. Non-trivial: at least one tamper operation "
         "hit a message that the target had not processed yet. Distinct: "
         "event-log digests among non-trivial runs.")
-RULE += (' A fifth configuration runs long exchanges (up to 45 messages a side) with late verbatim replays of version/pake/phase 0. Sweep operations include non-ASCII look-alike labels, third-side re-labelling and pake-withholding.')
+RULE += (' A fifth configuration runs long exchanges (up to 80 messages a side) with late verbatim replays of early records of either side (version/pake/phase 0/1). Sweep operations include non-ASCII look-alike labels, third-side re-labelling and pake-withholding.')
 RULE += (' A seventh configuration runs two sessions one after the other in one process and replays what the server forwarded in the first (verbatim, under the old side) right behind the new peer\'s pake in the second.')
 RULE += (' In the long configuration the server may also sit on one numbered message while 9..20 later ones pass, and deliver it afterwards.')
 LEVEL_TEXT = ("Fault enumeration: every tamper operation of the sweep table "
@@ -51,7 +51,7 @@ OPS = ("flip", "truncate", "extend", "phase_swap", "phase_set", "side_to_peer",
 
 
 def configs(tier):
-    # the fifth configuration: long exchanges (up to 45 messages a side) with
+    # the fifth configuration: long exchanges (up to 80 messages a side) with
     # a late verbatim replay of early messages (dedup state under load)
     return [{"spake": "real", "reorder_heavy": i % 2 == 1} for i in range(4)] \
         + [{"spake": "real", "long": True},
@@ -432,7 +432,7 @@ def run_one(seed, tape, opts):
         return run_sweep_case(seed, tape, opts)
     if opts.get("cross_session"):
         return run_cross_session(seed, tape, opts)
-    w, a, b = ca.build_pair(tape, opts, max_msgs=45 if opts.get("long")
+    w, a, b = ca.build_pair(tape, opts, max_msgs=80 if opts.get("long")
                             else 4)
     sim = w.sim
     # unique, attributable plaintexts
@@ -486,8 +486,9 @@ def run_one(seed, tape, opts):
         # (version, pake or phase 0) long after it was first delivered
         c = end.link.owner
         old_ = [x for x in w.server.stored_messages()
-                if x["side"] != c.side and x["phase"] in ("version", "pake",
-                                                          "0")]
+                if x["phase"] in ("version", "pake", "0", "1")]
+        # (the client's own early records too: a verbatim echo, long after
+        # the first one, is still an echo)
         if not old_:
             return
         x = tape.pick(old_, "late_i")
@@ -505,7 +506,8 @@ def run_one(seed, tape, opts):
             for link in w.sim.net.links:
                 if link.mode == "message" and link.up and \
                         link.owner is not None and link.ends[0].alive and \
-                        len(link.owner.received) >= 33:
+                        (len(link.owner.received) >= 33 or
+                         len(link.owner.sent) >= 66):
                     evs0.append(("late_replay:%d" % link.serial,
                                  lambda e=link.ends[0]: late_replay(e), 30))
         if tamper_budget[0] <= 0:
@@ -722,7 +724,8 @@ def run_one(seed, tape, opts):
             for link in sim.net.links:
                 if link.mode == "message" and link.up and \
                         link.owner is not None and link.ends[0].alive and \
-                        len(link.owner.received) >= 33 and \
+                        (len(link.owner.received) >= 33 or
+                         len(link.owner.sent) >= 66) and \
                         not link.owner.close_called and \
                         tape.chance(100, "late?"):
                     late_replay(link.ends[0])
